@@ -38,6 +38,12 @@ type CallHint struct {
 	Ghost   map[string]Expr
 }
 
+type AtCall struct {
+	Callee  string
+	Ordinal int
+	Clause  *Clause
+}
+
 type FuncSpec struct {
 	Key        string
 	Src        string
@@ -62,6 +68,7 @@ type FuncSpec struct {
 	Notes      []string
 	Opts       map[string]string
 	ExitGhost  []*Clause // ghost updates applied at each return
+	AtCall     []*AtCall // ghost updates applied right after the k-th call (source order) of a callee
 	Uses       []*Clause
 }
 
@@ -153,7 +160,7 @@ var clauseKeywords = map[string]bool{
 	"decreases": true, "arith": true, "inline": true, "pure": true, "calllog": true, "call": true,
 	"assert": true, "lock": true, "finding": true, "pred": true, "fun": true, "axiom": true,
 	"lemma": true, "guards": true, "trusted": true, "note": true, "opt": true, "exit-ghost": true,
-	"use": true, "ufun": true,
+	"use": true, "ufun": true, "ghost-at": true,
 }
 
 func (cs *ContractSet) parseLines(file string, lines []string, nums []int, extern bool) error {
@@ -345,6 +352,19 @@ func (cs *ContractSet) parseLines(file string, lines []string, nums []int, exter
 		case "exit-ghost":
 			c, _ := mk(false)
 			cur.ExitGhost = append(cur.ExitGhost, c)
+		case "ghost-at":
+			// ghost-at Contains#1: lhs = rhs [when cond]
+			k := strings.Index(it.rest, ":")
+			if k < 0 {
+				return fmt.Errorf("%s: ghost-at needs 'callee#k: lhs = rhs'", src)
+			}
+			nm := strings.TrimSpace(it.rest[:k])
+			ord := 1
+			if h := strings.Index(nm, "#"); h >= 0 {
+				ord, _ = strconv.Atoi(nm[h+1:])
+				nm = nm[:h]
+			}
+			cur.AtCall = append(cur.AtCall, &AtCall{Callee: nm, Ordinal: ord, Clause: &Clause{Kind: "ghost-at", Text: strings.TrimSpace(it.rest[k+1:]), Src: src}})
 		case "ghost-param":
 			f := strings.Fields(it.rest)
 			if len(f) < 2 {
@@ -1133,6 +1153,9 @@ func (sp *FuncSpec) specText() string {
 	add(sp.Ensures)
 	add(sp.Asserts)
 	add(sp.ExitGhost)
+	for _, a := range sp.AtCall {
+		b.WriteString(a.Clause.Text + " ")
+	}
 	add(sp.Uses)
 	for _, l := range sp.Loops {
 		add(l.Invariants)
